@@ -21,6 +21,13 @@ import pipeline as P
 PROP = "C18"
 
 
+def own(r):
+    """take the values of a returned array, then overwrite it: the caller owns what it was given"""
+    v = [float(x) for x in r]
+    core.poison(r)
+    return v
+
+
 def tl(L, x):
     """T_L(x), T_L'(x) for a Fraction x by the recurrence"""
     t0, t1 = Fraction(1), x
@@ -47,10 +54,10 @@ def one(ctx, FP, d, delta):
     L = 2 * d + 1
     with core.quiet():
         g = FP.FPSearch(verbose=False)
-        ph = [float(v) for v in g.generate(d, delta)]
-        av = [float(v) for v in g.generate(d, delta, return_alpha=True)]
+        ph = own(g.generate(d, delta))
+        av = own(g.generate(d, delta, return_alpha=True))
         gamma = 1 / np.cosh((1 / L) * np.arccosh(1 / delta))
-        ph_gamma = [float(v) for v in g.generate(d, gamma=float(gamma))]
+        ph_gamma = own(g.generate(d, gamma=float(gamma)))
     ctx.count("d<=10" if d <= 10 else ("d<=40" if d <= 40 else "d>40"))
     ctx.case([d, delta], True, {"d": d, "delta": delta, "phases": ph[:4]})
     replay = {"d": d, "delta": delta}
@@ -96,7 +103,7 @@ def one_gamma(ctx, FP, d, gamma):
     """gamma passed directly: x = T_{1/L}(1/delta) = 1/gamma exactly (delta may be far below binary64 range)"""
     drv = ctx.driver()
     with core.quiet():
-        ph = [float(v) for v in FP.FPSearch(verbose=False).generate(d, gamma=gamma)]
+        ph = own(FP.FPSearch(verbose=False).generate(d, gamma=gamma))
     ctx.count("gamma-direct")
     ctx.case(["gamma", d, gamma], True, {"d": d, "gamma": gamma, "phases": ph[:4]})
     replay = {"d": d, "gamma": gamma}
@@ -154,10 +161,10 @@ def sweep_all_lengths(ctx, FP, rng, certified):
         L = 2 * d + 1
         with core.quiet():
             g = FP.FPSearch(verbose=False)
-            ph = [float(v) for v in g.generate(d, delta)]
-            av = [float(v) for v in g.generate(d, delta, return_alpha=True)]
+            ph = own(g.generate(d, delta))
+            av = own(g.generate(d, delta, return_alpha=True))
             gamma = float(1 / np.cosh((1 / L) * np.arccosh(1 / delta)))
-            ph_gamma = [float(v) for v in g.generate(d, gamma=gamma)]
+            ph_gamma = own(g.generate(d, gamma=gamma))
         ctx.count("all-lengths-sweep")
         ctx.case(["sweep", d, delta], True, {"d": d, "delta": delta, "kind": "all-lengths sweep"})
         replay = {"d": d, "delta": delta}
